@@ -123,7 +123,10 @@ ENCODINGS += [dict(start_index=1, fill='attr', fill_value=0, dtype='uint16'), di
 ENCODINGS += [dict(start_index=0, fill='attr', fill_value=int(numpy.iinfo('int64').max), dtype='int64'),
               dict(start_index=1, fill='attr', fill_value=-9223372036854775806, dtype='int64', transposed=True),
               dict(start_index=1, fill='attr', start_index_by_table={'edge_node': 0, 'face_face': 0, 'edge_face': 0}),
-              dict(start_index=0, fill='nan', start_index_by_table={'edge_node': 1, 'face_edge': 1})]
+              dict(start_index=0, fill='nan', start_index_by_table={'edge_node': 1, 'face_edge': 1}),
+              # start_index stored as the text "0" / "1"; one table stored the other way round than the others
+              dict(start_index=0, fill='nan', start_index_as_text=True), dict(start_index=1, fill='attr', start_index_as_text=True),
+              dict(start_index=0, fill='nan', transposed_tables=('face_face',)), dict(start_index=1, fill='attr', transposed_tables=('face_node', 'edge_face'))]
 
 
 def body_encoding(ctx, mesh, supply, coords_as_coords, edge_order, two_name='Two', fill_first=False):
